@@ -67,6 +67,7 @@ pub fn snapshot(req: &Request, ask: &[String]) -> Snapshot {
 
 pub fn run(args: &Args, rep: &mut Report) {
     let small = args.flag("small").is_some();
+    crate::reqref::SMALL.store(small, std::sync::atomic::Ordering::Relaxed);
     let router = hook::Router::new(Ohkami::new(()));
     if args.shard == 0 && args.start == 0 {
         witnesses(rep, &router);
@@ -85,7 +86,7 @@ pub fn run(args: &Args, rep: &mut Report) {
             } else {
                 check(rep, case, &router, &r.bytes(), None, &r.features);
             }
-            if small && case > 40 * args.nshards {
+            if small && case > 25 * args.nshards {
                 break;
             }
             rep.end(case);
